@@ -15,7 +15,7 @@ const W COPYP[] = {{OP_NEW_INT, 4}, {OP_NEW_FLOAT, 2}, {OP_NEW_CTRL, 1}, {OP_NEW
                    {OP_NEW_DEF_MAP, 3}, {OP_NEW_INDEF_MAP, 3}, {OP_NEW_TAG, 1}, {OP_BUILD_TAG, 3}, {OP_PUSH, 10}, {OP_SET, 2}, {OP_REPLACE, 5}, {OP_GET, 5}, {OP_MAP_ADD, 6}, {OP_ADD_CHUNK, 4}, {OP_TAG_SET, 2}, {OP_TAG_ITEM, 2},
                    {OP_COPY, 14}, {OP_SERIALIZE_ALLOC, 2}, {OP_INCREF, 2}, {OP_DECREF, 10}, {OP_INTERMEDIATE_DECREF, 1}, {OP_SETVAL, 5}, {OP_MARK, 2}, {OP_GETTERS, 3}, {OP_LOAD_RAW, 2}};
 const W CONT[] = {{OP_NEW_INT, 5}, {OP_NEW_CTRL, 1}, {OP_NEW_BSTR, 3}, {OP_NEW_TSTR, 3}, {OP_NEW_INDEF_BSTR, 3}, {OP_NEW_INDEF_TSTR, 3}, {OP_NEW_DEF_ARRAY, 7}, {OP_NEW_INDEF_ARRAY, 6}, {OP_NEW_DEF_MAP, 5}, {OP_NEW_INDEF_MAP, 5},
-                  {OP_PUSH, 14}, {OP_PUSH_MANY, 3}, {OP_SET, 10}, {OP_REPLACE, 10}, {OP_GET, 10}, {OP_MAP_ADD, 10}, {OP_ADD_CHUNK, 7}, {OP_DECREF, 5}, {OP_GETTERS, 2}, {OP_COPY, 1}};
+                  {OP_PUSH, 14}, {OP_PUSH_MANY, 3}, {OP_SET, 10}, {OP_REPLACE, 10}, {OP_GET, 10}, {OP_MAP_ADD, 10}, {OP_ADD_CHUNK, 7}, {OP_DECREF, 5}, {OP_GETTERS, 2}, {OP_COPY, 1}, {OP_LOAD_RAW, 4}};   // containers that come out of the decoder are containers too
 
 template <size_t N> int pick_op(Rng& g, const W (&t)[N]) {
   unsigned tot = 0; for (auto& e : t) tot += e.w;
@@ -29,7 +29,7 @@ uint64_t small_cap(Rng& g) { switch (g.below(10)) { case 0: return 0; case 1: re
 static bool marathon_refs = false;
 void gen_hist_ops(Rng& g, Rng& fr, const std::string& prop, unsigned nops, bool with_faults, J& ops) {
   // an abstract view of the pool keeps short plans meaningful (only ask for a push when an array is likely there)
-  int deep_follow = 0;
+  int deep_follow = 0, grow_follow = 0; unsigned grow_kind = 0;
   unsigned n_pool = 0, n_arr = 0, n_map = 0, n_istr = 0, n_tag = 0, n_dstr = 0;
   for (unsigned i = 0; i < nops; i++) {
     int code;
@@ -49,6 +49,15 @@ void gen_hist_ops(Rng& g, Rng& fr, const std::string& prop, unsigned nops, bool 
     if (nops <= 40 && g.chance(1, prop == "C12" || prop == "C03" ? 2500 : 20000)) { HOp b; b.code = OP_BIG; b.a = prop == "C03" ? 3 : prop == "C12" ? g.below(3) : g.below(4); b.b = g.next() >> 8; b.c = g.next() >> 8; ops.push(hop_to_json(b)); }
     if (marathon_refs && i == 0 && (prop == "C04" || prop == "C13") && g.chance(1, 150000)) { HOp b; b.code = OP_BIG; b.a = 4; b.c = g.next() >> 8; ops.push(hop_to_json(b)); }   // ~2^33 library calls: thorough tier only
     if (deep_follow > 0 && i + 1 < nops + 3) { static const int F[] = {OP_SIZE, OP_SERIALIZE, OP_SERIALIZE_ALLOC, OP_DESCRIBE, OP_COPY}; code = F[g.below(5)]; }
+    bool growing = false;
+    if (grow_follow > 0 && deep_follow == 0 && i + 1 < nops + 4) {
+      // insert into the container the decoder has just built (a chunk needs a definite string of the same kind first)
+      growing = true;
+      if (grow_kind >= 2 && grow_follow == 4) code = grow_kind == 2 ? OP_NEW_BSTR : OP_NEW_TSTR;
+      else code = grow_kind == 0 ? (g.chance(1, 4) ? OP_SET : OP_PUSH) : grow_kind == 1 ? OP_MAP_ADD : OP_ADD_CHUNK;
+      if (grow_follow == 1 && g.chance(1, 2)) code = g.chance(1, 2) ? OP_SERIALIZE : OP_COPY;
+      grow_follow--;
+    }
     HOp o; o.code = code; o.a = g.next() >> 8; o.b = g.next() >> 8; o.c = g.next() >> 8; o.d = g.below(16);
     switch (code) {
       case OP_NEW_INT: o.a = g.below(4); o.b = g.below(2); o.c = gen_u64(g); break;
@@ -66,7 +75,7 @@ void gen_hist_ops(Rng& g, Rng& fr, const std::string& prop, unsigned nops, bool 
       case OP_RESET_HANDLE: o.c = g.below(400); break;
       case OP_MAP_ADD: case OP_ADD_CHUNK: if ((prop == "C12" || prop == "C03") && nops <= 40 && g.chance(1, 12)) { static const uint64_t C[] = {3, 22, 23, 24, 30, 129, 130, 254, 255, 256, 300, 1000, 3000}; o.d |= (C[g.below(13)] - 1) << 4; } break;
       case OP_SETVAL: { if (g.chance(1, 2)) o.c = gen_u64(g); else { GenProfile gp; MV t; do { Rng r2(g.next(), "f"); t = gen_mv(r2, gp, 99); } while (t.kind != MK_FLOAT); o.c = t.val; } break; }
-      case OP_LOAD_RAW: o.c = g.next(); o.d &= ~12ull; if ((prop == "C13" || prop == "C03" || prop == "C04") && g.chance(1, 2)) { o.d |= 8; deep_follow = 3; } else if (g.chance(1, 10)) { o.d |= 4; deep_follow = 2; } break;
+      case OP_LOAD_RAW: o.c = g.next(); o.d &= ~28ull; if ((prop == "C13" || prop == "C03" || prop == "C04") && g.chance(1, 2)) { o.d |= 8; deep_follow = 3; } else if (g.chance(1, 10)) { o.d |= 4; deep_follow = 2; } else if (g.chance(1, prop == "C12" ? 2 : 6)) { o.d |= 16; grow_follow = 4; grow_kind = (unsigned)((o.c >> 3) % 4); n_arr++; n_map++; n_istr++; } break;
       default: break;
     }
     if (code <= OP_BUILD_TAG || code == OP_COPY || code == OP_LOAD || code == OP_LOAD_RAW || code == OP_GET || code == OP_TAG_ITEM || code == OP_INCREF) n_pool++;
@@ -78,6 +87,7 @@ void gen_hist_ops(Rng& g, Rng& fr, const std::string& prop, unsigned nops, bool 
       switch (fr.below(7)) { case 0: case 1: o.fk = F_NTH; o.fkk = fr.below(8); break; case 2: case 3: o.fk = F_FROM; o.fkk = fr.below(6); break; case 4: o.fk = F_REALLOC_ONLY; o.fkk = 0; break; case 5: o.fk = F_PROB; o.fkk = fr.range(100, 500); break; default: o.fk = F_QUOTA; o.fkk = fr.below(700); }
     }
     if (deep_follow > 0 && code != OP_LOAD_RAW) { o.a = SEL_LAST; deep_follow--; }
+    if (growing && code != OP_NEW_BSTR && code != OP_NEW_TSTR) { o.a = SEL_LAST; if (code == OP_ADD_CHUNK) o.b = SEL_LAST; if (code == OP_SET) o.c = SEL_LAST; }
     ops.push(hop_to_json(o));
   }
 }
